@@ -1,20 +1,18 @@
-"""Property registry: which Go test decides which property, and the tier budgets."""
+"""Property registry: one JSON fragment per property under registry.d/ (id, pkg, test, level,
+quick/thorough budgets, optional race/tags/fuzz/env, and the MANIFEST claim texts)."""
+import glob
+import json
+import os
 
+_ROOT = os.path.dirname(os.path.abspath(__file__))
 
-def P(pkg, test, quick, thorough, level="exploration", race=False, tags=None, fuzz=None, env=None):
-    d = {"pkg": pkg, "test": test, "quick": quick, "thorough": thorough, "level": level, "race": race}
-    if tags:
-        d["tags"] = tags
-    if fuzz:
-        d["fuzz"] = fuzz
-    if env:
-        d["env"] = env
-    return d
-
-
-PROPS = {
-    "C01": P("g_wire", "TestC01",
-             quick={"checks": 2500, "timeout": 300},
-             thorough={"checks": 60000, "shards": 12, "timeout": 1200},
-             fuzz=[{"name": "FuzzReadRequest", "seconds": 45}, {"name": "FuzzFinders", "seconds": 45}]),
-}
+PROPS = {}
+CLAIMS = {}
+for _path in sorted(glob.glob(os.path.join(_ROOT, "registry.d", "*.json"))):
+    with open(_path) as _f:
+        _d = json.load(_f)
+    _id = _d.pop("id")
+    CLAIMS[_id] = _d.pop("claim")
+    _d.setdefault("level", "exploration")
+    _d.setdefault("race", False)
+    PROPS[_id] = _d
